@@ -48,6 +48,8 @@ pub fn conn_err(e: &ConnectionError) -> String {
         ConnectionError::ConnectionClosed(_) => "conn_closed".into(),
         ConnectionError::QuicProto(_) => "quic_proto".into(),
         ConnectionError::CidsExhausted => "cids_exhausted".into(),
+        #[allow(unreachable_patterns)]
+        _ => "other".into(),
     }
 }
 
@@ -68,6 +70,8 @@ pub fn write_err(e: &StreamWriteError) -> String {
         StreamWriteError::Closed => "closed".into(),
         StreamWriteError::Stopped(c) => format!("stopped:{}", c.into_inner()),
         StreamWriteError::QuicProto => "quic_proto".into(),
+        #[allow(unreachable_patterns)]
+        _ => "other".into(),
     }
 }
 
@@ -76,6 +80,8 @@ pub fn read_err(e: &StreamReadError) -> String {
         StreamReadError::NotConnected => "not_connected".into(),
         StreamReadError::Reset(c) => format!("reset:{}", c.into_inner()),
         StreamReadError::QuicProto => "quic_proto".into(),
+        #[allow(unreachable_patterns)]
+        _ => "other".into(),
     }
 }
 
@@ -83,6 +89,8 @@ pub fn read_exact_err(e: &StreamReadExactError) -> String {
     match e {
         StreamReadExactError::FinishedEarly(n) => format!("finished_early:{n}"),
         StreamReadExactError::Read(r) => read_err(r),
+        #[allow(unreachable_patterns)]
+        _ => "other".into(),
     }
 }
 
@@ -90,6 +98,8 @@ pub fn opening_err(e: &StreamOpeningError) -> String {
     match e {
         StreamOpeningError::NotConnected => "not_connected".into(),
         StreamOpeningError::Refused => "refused".into(),
+        #[allow(unreachable_patterns)]
+        _ => "other".into(),
     }
 }
 
@@ -98,6 +108,8 @@ pub fn send_dgram_err(e: &SendDatagramError) -> String {
         SendDatagramError::NotConnected => "not_connected".into(),
         SendDatagramError::UnsupportedByPeer => "unsupported".into(),
         SendDatagramError::TooLarge => "too_large".into(),
+        #[allow(unreachable_patterns)]
+        _ => "other".into(),
     }
 }
 
